@@ -182,6 +182,8 @@ def check_sigapi(case):
     # in preimage mode the message already ends in the 4-byte flag
     eff_flag = flag if flag is not None else case["pflag"]
     msg = body + eff_flag.to_bytes(4, "little") if preimage else body
+    if len(msg) in (32, 64):
+        cls.append(f"nt:msg-len-{len(msg)}/{'preimage' if preimage else 'plain'}")
     z = int.from_bytes(_msg_digest(msg, flag, preimage), "big")
     # solve the private key so that the scripted nonce yields the target s (DER padding classes through the API)
     k = case["k"] % N or 1
@@ -360,8 +362,12 @@ def sigapi_cases(draw):
     flag = draw(st.sampled_from([0x01, 0x02, 0x03, 0x81, 0x82, 0x83, None]))
     preimage = draw(st.booleans())
     mode = draw(st.sampled_from(["plain", "target-s", "target-s", "short-r"]))
+    # lengths at which a message could be mistaken for something else (a 32-byte digest, a 64-byte pair, an empty string),
+    # for the message as passed: body + 4 flag bytes in preimage mode
+    blen = draw(st.sampled_from([None, None, None, 0, 1, 27, 28, 29, 31, 32, 33, 60, 64]))
+    body = draw(st.binary(max_size=200)) if blen is None else draw(st.binary(min_size=blen, max_size=blen))
     case = {
-        "msg": draw(st.binary(max_size=200)).hex(),
+        "msg": body.hex(),
         "flag": flag,
         "pflag": draw(st.sampled_from([0x01, 0x02, 0x03, 0x81, 0x82, 0x83])),
         "preimage": preimage,
@@ -384,7 +390,7 @@ def targets(tier):
                          "nt:s-negated|rng-not-consulted", "nt:r-short|rng-not-consulted", "nt:s-short|rng-not-consulted", "nt:r-pad|rng-not-consulted",
                          "nt:s-short-pad|rng-not-consulted", "nt:pair-key", "nt:pair-message"]),
         Target("sig-api", check_sigapi, strategy=lambda tier: sigapi_cases(), budget={"quick": 500, "thorough": 10000},
-               required=["nt:preimage", "nt:flag-anyonecanpay", "nt:s-short-pad", "nt:r-short", "nt:solved-key"]),
+               required=["nt:preimage", "nt:flag-anyonecanpay", "nt:s-short-pad", "nt:r-short", "nt:solved-key", "nt:msg-len-32/preimage", "nt:msg-len-32/plain", "nt:msg-len-64/preimage", "nt:msg-len-64/plain"]),
         Target("der-codec", check_der, enumerate_=enum_der, required=["nt:s-short-pad", "nt:r-short-pad", "nt:r-pad"]),
         Target("small-curve", check_small, enumerate_=enum_small, exhaustive=True),
     ]
